@@ -233,7 +233,7 @@ def r064(prog, chk):
     mw = ix.get_class(f"{MARK}.MarkFeatureWriter")
     md = mw.methods["_makeMarkClassDefinitions"]
     st = [(s, t, v) for s, t, v in subscript_stores(md) if isinstance(t.slice, ast.Attribute)]
-    ok = len(st) == 1 and st[0][1].slice.attr == "key"
+    ok = len(st) >= 1 and all(x[1].slice.attr == "key" for x in st)
     chk.ob("R06.4", f"{md.short}|mark classes stored under anchor.key", ok, where(md, st[0][0]) if st else where(md), detail=T(st[0][0]) if st else "",
            message=f"{md.short}: mark classes are not stored under the anchor key")
     if ok:
@@ -246,6 +246,17 @@ def r064(prog, chk):
     calls = [c for c in calls_named(md, "_defineMarkClass")]
     need(len(calls) == 1, f"cannot interpret {md.short}: _defineMarkClass call")
     c = calls[0]
+    # a name clash makes _defineMarkClass open a new class: the following glyphs of the same anchor class must go there too
+    cn = c.args[3] if len(c.args) > 3 else A.kwarg(c, "className")
+    okc = isinstance(cn, ast.Name)
+    if okc:
+        ds = prog.reaching(md, cn.id, cn)
+        inner = [a for a in ix.ancestors(c) if isinstance(a, ast.For)][0]
+        carried = [d for d in ds if d.kind == "assign" and any(a is inner for a in ix.ancestors(d.binder)) and T(d.value).endswith(".markClass.name")]
+        okc = len(carried) == 1 and any(o == "isnot" and r == "None" for o, l, r in facts(prog, md, carried[0].binder))
+    chk.ob("R06.4", f"{md.short}|after a name clash the following glyphs of the anchor class use the new class name", okc, where(md, c), detail="className = mcd.markClass.name (carried to the next iteration)",
+           message=f"{md.short}: when a mark glyph clashes with a user-defined mark class and gets a new class, the next glyphs of the same anchor class are still added to the old "
+                   f"class: the generated lookups then attach them through the user's anchor instead of the UFO's")
     ps = dm.params()[1:]
     roles = {}
     for i, a in enumerate(c.args):
@@ -488,6 +499,8 @@ def r0610(prog, chk):
 
 
 MUTANTS = [
+    M("class name not carried over after a clash (seeded C06b)", "ufo2ft/featureWriters/markFeatureWriter.py", "MarkFeatureWriter._makeMarkClassDefinitions",
+      "className = mcd.markClass.name", "pass", rule="R06.4"),
     M("glyphs of undeclared abvm scripts fall between the two sets (seeded C06a)", "ufo2ft/featureWriters/markFeatureWriter.py", "MarkFeatureWriter._getAbvmGlyphs",
       "notAbvmGlyphs |= glyphSet - abvmGlyphs", "notAbvmGlyphs |= glyphSet - set().union(*glyphGroups.values())", rule="R06.10"),
     M("mark feature built for abvm glyphs", "ufo2ft/featureWriters/markFeatureWriter.py", "MarkFeatureWriter._makeFeatures",
